@@ -257,7 +257,10 @@ func (c *c02Engine) runOn(g gdbi.GraphInterface, q []c01Stmt) c01Result {
 	if err != nil {
 		return c01Result{bad: "decode: " + err.Error()}
 	}
-	pipe, err := g.Compiler().Compile(stmts, nil)
+	pipe, err, pnc := SafeCompile(g, stmts)
+	if pnc != "" {
+		return c01Result{bad: "panic in Compile: " + pnc}
+	}
 	if err != nil {
 		return c01Result{compileErr: true}
 	}
@@ -761,6 +764,44 @@ func c02Gen(r *Run) {
 		{{"v": sl()}, {"outE": sl()}, {"distinct": sl()}, {"out": sl()}, {"count": ""}},
 	} {
 		query(q)
+	}
+
+	// (4b) long traversals on a chain: a mark set in an early step and read ten or more steps later
+	// (step ids are decimal strings in the analysis: "10" sorts before "2"), marks on edges (kvgraph
+	// honours the do-not-load hint for them) and on vertices, read by has / select+hasKey / count.
+	{
+		vs := []interface{}{}
+		es := []interface{}{}
+		nchain := 14
+		for i := 0; i < nchain; i++ {
+			vs = append(vs, map[string]interface{}{"gid": fmt.Sprintf("n%02d", i), "label": "A", "data": map[string]interface{}{"x": float64(i), "name": "ann"}})
+			if i+1 < nchain {
+				es = append(es, map[string]interface{}{"gid": fmt.Sprintf("c%02d", i), "label": "k", "from": fmt.Sprintf("n%02d", i), "to": fmt.Sprintf("n%02d", i+1), "data": map[string]interface{}{"x": float64(i), "name": "bob"}})
+			}
+		}
+		reset(map[string]interface{}{"vertices": vs, "edges": es})
+		outs := func(k int) []c01Stmt {
+			q := []c01Stmt{}
+			for i := 0; i < k; i++ {
+				q = append(q, c01Stmt{"out": sl()})
+			}
+			return q
+		}
+		for _, pre := range []int{0, 1, 3} { // vertex steps before the marked element
+			for _, k := range []int{1, 6, 7, 8, 9, 10} { // vertex steps after it
+				if pre+k > 11 {
+					continue
+				}
+				start := c02Join([]c01Stmt{{"v": sl("n00")}}, outs(pre))
+				r.Count("longmark")
+				// mark on an edge
+				query(c02Join(start, []c01Stmt{{"outE": sl()}, {"as": "a"}}, outs(k), []c01Stmt{{"has": c02C("$a.x", "GTE", 0.0)}}))
+				query(c02Join(start, []c01Stmt{{"outE": sl()}, {"as": "a"}}, outs(k), []c01Stmt{{"has": c02C("$a.name", "EQ", "bob")}, {"count": ""}}))
+				query(c02Join(start, []c01Stmt{{"outE": sl()}, {"as": "a"}}, outs(k), []c01Stmt{{"select": map[string]interface{}{"marks": sl("a")}}, {"hasKey": sl("x")}}))
+				// mark on a vertex
+				query(c02Join(start, []c01Stmt{{"as": "a"}}, outs(k+1), []c01Stmt{{"has": c02C("$a.name", "EQ", "ann")}}))
+			}
+		}
 	}
 
 	// (5) random: leading filters + C01's random well-typed programs
